@@ -26,7 +26,7 @@ FirstBadPiece(ps, obs, i) ==
 Judge(e, r) ==
     IF e.exc # r.err THEN (IF r.err = "none" THEN "raises-" \o e.exc ELSE "error-differs")
     ELSE IF r.err # "none" THEN "ok"
-    ELSE IF e.k \in {"split", "divide"} THEN
+    ELSE IF e.k \in Pieces THEN
          (IF Len(e.pieces) # Len(r.pieces) THEN "piece-count-differs"
           ELSE FirstBadPiece(r.pieces, e.pieces, 1))
     ELSE IF e.k \in StyleOnly /\ Codes(r.cur.chars) # [i \in DOMAIN e.obs.chars |-> e.obs.chars[i][1]]
@@ -36,7 +36,7 @@ Judge(e, r) ==
 
 Step == /\ l <= Len(Tr) /\ verdict = "ok"
         /\ LET e == Tr[l]
-               r == IF e.k = "swap" THEN Res(sib) ELSE Apply(t, e)
+               r == IF e.k = "swap" THEN Res(sib) ELSE Apply(t, sib, e)
                v == Judge(e, r)
            IN /\ verdict' = IF v = "ok" THEN "ok" ELSE "step " \o ToString(l) \o " " \o e.k \o ": " \o v
               /\ t' = IF v = "ok" /\ r.err = "none"
